@@ -10,7 +10,7 @@ RULE = ("(a) bounded-exhaustive argument lists: the pair NAME <n> inserted at ev
         "<=K other arguments from a 9-element pool (EXPECTFAIL, an argument equal to the name, keywords as "
         "substrings, COMMAND, quoted, reference), 3 name forms, for ct_add_test / ct_add_section / add_test, "
         "documented and undocumented; (b) explicit-state BFS over nestings of tests and sections with by-standers. "
-        "Each case runs the real pipeline; oracle = reference model of the statement.  non-trivial = every case "
+        "(c) every ordered pair of 12 argument lists that collide once blanks are dropped, as two declarations in one module. Each case runs the real pipeline; oracle = reference model of the statement.  non-trivial = every case "
         "(each expects >=1 test entry); distinct by expected (kind, signature) list")
 
 NAMES = ["tname", '"quoted name"', "${tref}", "fail", "_trail_", '"plainq"']     # ...; quotes that are not needed are still written     # a fragment of a keyword; underscores at both ends
@@ -38,6 +38,26 @@ def case_events(cmd, doc, args, params=None, impl="function"):
     if cmd == "ct_add_test":
         return [dict({"k": "ct_add_test", "doc": doc, "args": args}, **extra)]
     return [{"k": "ct_add_test", "doc": 0}, dict({"k": "ct_add_section", "doc": doc, "args": args}, **extra)]
+
+
+# argument lists that collide pairwise once the blanks between the arguments are removed (a cache keyed by the
+# declaration's concatenated token text would confuse them), plus exact repeats
+PAIR_LISTS = [["NAME", "tn", "EXPECTFAIL"], ["NAME", "tnEXPECTFAIL"], ["NAME", "tn"], ["NAME", "t", "n"], ["NAME", "tn", "EXPECT", "FAIL"],
+              ["EXPECTFAIL", "NAME", "tn"], ["EXPECTFAILNAME", "NAME", "tn"], ["NAME", "tn", "x", "y"], ["NAME", "tn", "xy"],
+              ["NAME", "tnx", "y"], ["NAMEtn", "NAME", "tn"], ["NAME", "tnNAME", "tn"]]
+
+
+def pair_events(cmd, doc, a, b):
+    one = lambda args: ([{"k": cmd, "doc": doc, "args": list(args)}] + ([] if cmd == "add_test" else [{"k": "close"}]))
+    evs = one(a) + one(b)
+    if cmd == "ct_add_section":
+        evs = [{"k": "ct_add_test", "doc": 0}] + evs
+    return evs
+
+
+def check_pair(job, case):
+    msgs, dg, nt = modsearch.check_module(pair_events(*job), None, case)
+    return {"viol": msgs, "obs": dg, "nt": dg, "cls": msgs[0].split(":")[0] if msgs else None}
 
 
 def check_args(job, case):
@@ -110,6 +130,10 @@ def run(ctx):
     ctx.cov["bounds"] = {"max_other_arguments": k, "name_forms": NAMES, "pool": pool("<name>"),
                          "nesting": maxnest, "max_history": depth, "command_case": case}
     ctx.sweep(functools.partial(check_args, case=case), jobs, space="argument lists")
+    pairs = [(cmd, doc, a, b) for cmd in ("add_test", "ct_add_test", "ct_add_section") for doc in (1, 0)
+             for a in PAIR_LISTS for b in PAIR_LISTS]
+    ctx.cov["bounds"]["pair_lists"] = PAIR_LISTS
+    ctx.sweep(functools.partial(check_pair, case=case), pairs, space="two declarations in one module (every ordered pair)")
     ctx.bfs(functools.partial(expand, maxnest=maxnest, depth=depth, case=case),
             (statespace.model_key([]), None), depth, space="nesting bfs")
     ctx.assumptions += ["keywords are upper case; exactly one NAME pair per command; name is never itself a keyword"]
@@ -117,7 +141,12 @@ def run(ctx):
 
 
 def replay(case):
-    events = case if (isinstance(case, list) and case and isinstance(case[0], dict)) else case_events(*case)
+    if isinstance(case, list) and case and isinstance(case[0], dict):
+        events = case
+    elif len(case) == 4:
+        events = pair_events(*case)
+    else:
+        events = case_events(*case)
     for cs in ("lower", "upper", "mixed"):
         m = modsearch.check_module(events, None, cs)[0]
         if m:
